@@ -6,6 +6,7 @@ structural obligation failing) not listed as known finding; 2 undecided (unknown
 missing function / obligations missing w.r.t. the ledger); 3 internal error.
 """
 import json, os, sys, time, traceback, hashlib
+CURRENT_PID = None
 import z3
 from .core import *
 from . import smt
@@ -27,6 +28,8 @@ def load_known():
 
 class Check:
     def __init__(self, pid, tier="quick", seed=0, level="proof"):
+        global CURRENT_PID
+        CURRENT_PID = pid       # replayers shared by several properties keep only the failures that concern this one
         self.pid, self.tier, self.seed, self.level = pid, tier, seed, level
         self.t0 = time.time()
         self.obls = []
@@ -202,12 +205,19 @@ class Check:
         by_label = {}
         for o in self.obls:
             by_label.setdefault(o.label, []).append(o)
+        # refuted obligations first: once a violation stands, the remaining instances were only given a triage budget, and an
+        # obligation left undecided by that budget must not borrow the replayed failure of another clause
         for label, lst in by_label.items():
             for o in lst:
-                if o.verdict in ("proved", "skipped"):
+                if o.verdict == "refuted":
+                    self.handle_refuted(o, mine)
+        established = bool(self.violations)
+        for label, lst in by_label.items():
+            for o in lst:
+                if o.verdict in ("proved", "skipped", "refuted", "known-finding"):
                     continue
                 if o.verdict == "unknown":
-                    if self.try_refute_by_replay(o):
+                    if not established and self.try_refute_by_replay(o):
                         continue
                     self.undecided.append("obligation %s (%s:%s) undecided: %s" % (o.label, o.func, o.line, str(o.info)[:120]))
                     continue
